@@ -107,12 +107,25 @@ def resolutionAsSpecified (c : ValCtx) : Bool :=
      | none => true
      | some (g, _) => !decide (Props.C05.Fresh g)) || Spec.C05.holdsFile c.defined a b
 
+/-- The SEARCH for a failing input behind a broken correspondence, where the count of the statement is not evaluated
+    (another diagnostic shares a range the property speaks about: `Fresh` fails): on one of these ranges the code
+    reports another number of Errors or Warnings than the unchanged semantics (the model, which satisfies the property
+    by theorem). It is only consulted when model and code DISAGREE on the case, so it cannot raise an alarm of its own. -/
+def countsDiffer (c : ValCtx) (ranges : AidlFile → List Range) : Bool :=
+  (zipById c.model c.out).any fun (m, o) => match m.ast with
+    | some ast => (ranges ast).any fun r =>
+        Spec.errorsAt o.diags r != Spec.errorsAt m.diags r || Spec.warningsAt o.diags r != Spec.warningsAt m.diags r
+    | none => false
+
 def handleC07 (c : ValCtx) (v : Verdict) : Verdict :=
-  let v := v.addCorr "C07" (decide (c.model.map Spec.C07.proj = c.out.map Spec.C07.proj))
-  let v := v.addSpec "C07" (c.out.all Spec.C07.holdsFile && resolutionAsSpecified c && c.readOk)
-  let v := v.addAssume "C07" (c.stage1.all fun fr => match groupsOf c fr with
+  let corrOk := decide (c.model.map Spec.C07.proj = c.out.map Spec.C07.proj)
+  let fresh := c.stage1.all fun fr => match groupsOf c fr with
     | none => true
-    | some (g, ids) => decide (Props.C07.Fresh g ids))
+    | some (g, ids) => decide (Props.C07.Fresh g ids)
+  let found := !corrOk && !fresh && countsDiffer c (fun ast => (Spec.C07.argsOf ast).map fun p => argDirectionRange p.2)
+  let v := v.addCorr "C07" corrOk
+  let v := v.addSpec "C07" (c.out.all Spec.C07.holdsFile && resolutionAsSpecified c && c.readOk && !found)
+  let v := v.addAssume "C07" (fresh || found)
   let args := c.out.flatMap fun fr => match fr.ast with
     | none => []
     | some ast => (Spec.C07.argsOf ast).map fun p =>
@@ -156,11 +169,14 @@ def handleC10 (c : ValCtx) (v : Verdict) : Verdict :=
   { v with nontrivial := !ms.isEmpty, dist := ms.foldl bump v.dist }
 
 def handleC09 (c : ValCtx) (v : Verdict) : Verdict :=
-  let v := v.addCorr "C09" (decide (c.model.map Spec.C09.proj = c.out.map Spec.C09.proj))
-  let v := v.addSpec "C09" (c.out.all Spec.C09.holdsFile && c.readOk)
-  let v := v.addAssume "C09" (c.stage1.all fun fr => match groupsOf c fr with
+  let corrOk := decide (c.model.map Spec.C09.proj = c.out.map Spec.C09.proj)
+  let fresh := c.stage1.all fun fr => match groupsOf c fr with
     | some (g, ids) => decide (Props.C09.Fresh g ids)
-    | none => true)
+    | none => true
+  let found := !corrOk && !fresh && countsDiffer c (fun ast => Spec.C09.idRanges (Spec.methodsOf ast))
+  let v := v.addCorr "C09" corrOk
+  let v := v.addSpec "C09" (c.out.all Spec.C09.holdsFile && c.readOk && !found)
+  let v := v.addAssume "C09" (fresh || found)
   let reports := c.out.flatMap fun fr => match fr.ast with
     | none => []
     | some b => Spec.C09.spec (Spec.methodsOf b)
@@ -182,11 +198,14 @@ def handleC08 (c : ValCtx) (v : Verdict) : Verdict :=
   { v with nontrivial := !conts.isEmpty, dist := conts.foldl bump v.dist }
 
 def handleC06 (c : ValCtx) (v : Verdict) : Verdict :=
-  let v := v.addCorr "C06" (decide (c.model.map Spec.C06.proj = c.out.map Spec.C06.proj))
-  let v := v.addSpec "C06" (c.out.all (Spec.C06.holdsFile c.defined) && resolutionAsSpecified c && c.readOk)
-  let v := v.addAssume "C06" (c.stage1.all fun fr => match groupsOf c fr with
+  let corrOk := decide (c.model.map Spec.C06.proj = c.out.map Spec.C06.proj)
+  let fresh := c.stage1.all fun fr => match groupsOf c fr with
     | some (g, _) => decide (Props.C06.Fresh g)
-    | none => true)
+    | none => true
+  let found := !corrOk && !fresh && countsDiffer c Spec.C06.stmtRanges
+  let v := v.addCorr "C06" corrOk
+  let v := v.addSpec "C06" (c.out.all (Spec.C06.holdsFile c.defined) && resolutionAsSpecified c && c.readOk && !found)
+  let v := v.addAssume "C06" (fresh || found)
   let reps := c.out.flatMap fun fr => match fr.ast with
     | none => []
     | some b =>
